@@ -33,7 +33,7 @@ import tempfile
 from hypothesis import given, settings, seed as hseed, strategies as st, HealthCheck, Phase
 
 from vf import REPO, VERIF
-from vf.runner import Collector, canon
+from vf.runner import Collector, canon, case_hash
 
 ID = 'C20'
 LEVEL = 'exploration'
@@ -61,7 +61,8 @@ ASSUMPTIONS = [
     'a symlink whose name matches a -hide pattern, and the hidden flag of a symlink, are unspecified and tolerated '
     'either way',
     'shell wildcard semantics of -m/-x/-hide*/-hidden are those of fnmatch on the file name component; generated '
-    'patterns contain no path separators',
+    'patterns contain no path separators and do not begin with "-" (argparse rejects such an argument with a usage error)',
+    'patterns that would exclude or hide the El Torito boot image or a file named like the boot catalog are not generated',
     'level 2/3 file identifiers are held to name+extension <= 30 and directories to <= 31 characters, level 4 to '
     '<= 207 bytes (man page of the tool), in addition to vf.legal',
 ]
@@ -291,7 +292,7 @@ entry_draw = st.tuples(
     st.integers(0, 10 ** 6),                                                       # parent selector
     st.sampled_from(['file'] * 6 + ['dir'] * 3 + ['symlink'] * 2 + ['twin'] * 2),
     name_st,
-    st.tuples(st.sampled_from(['uniq'] * 5 + ['empty'] * 2 + ['dup', 'dup', 'neardup', 'collA', 'collB', 'big']),
+    st.tuples(st.sampled_from(['uniq'] * 5 + ['empty'] * 2 + ['dup', 'dup', 'neardup', 'neardup', 'collA', 'collB', 'big']),
               st.sampled_from([1, 3, 5, 7, 100, 2047, 2048, 2049, 5000]),
               st.integers(0, 10 ** 6), st.integers(1, 255)),
     st.tuples(st.sampled_from(['fixed', 'fixed', 'sibling']), st.sampled_from(TARGETS), st.integers(0, 10 ** 6)),
@@ -328,7 +329,7 @@ draw_st = st.fixed_dictionaries({
     'chain': st.sampled_from([0, 0, 0, 0, 1, 2, 3, 5, 7, 8, 8, 9, 9]),
     'chain_names': st.lists(st.sampled_from(['d', 'lib', 'AB', 'ab', 'sub', 'n', 'deep', 'x1', 'Data', 'data', 'ü', 'long_directory_name']),
                             min_size=9, max_size=9),
-    'entries': st.lists(entry_draw, min_size=1, max_size=25),
+    'entries': st.sampled_from([1, 2, 3, 4, 6, 8, 10, 12, 16, 20, 25]).flatmap(lambda n: st.lists(entry_draw, min_size=n, max_size=n)),
 })
 
 
@@ -406,10 +407,11 @@ def build_case(d):
                 spec = {'seed': idx, 'size': 0}
             elif ckind == 'big':
                 spec = {'seed': idx, 'size': 33001}
-            elif ckind == 'collA':
-                spec = {'hex': COLL_A.hex()}
-            elif ckind == 'collB':
-                spec = {'hex': COLL_B.hex()}
+            elif ckind in ('collA', 'collB'):
+                # whichever half of the murmur3-colliding pair the tree does not hold yet
+                have = {f.get('hex') for f in files}
+                first, second = (COLL_A, COLL_B) if ckind == 'collA' else (COLL_B, COLL_A)
+                spec = {'hex': (second if first.hex() in have and second.hex() not in have else first).hex()}
             elif ckind in ('dup', 'neardup') and files:
                 spec = dict(files[ref % len(files)])
                 if ckind == 'neardup' and 'hex' not in spec and spec['size'] > 0:
@@ -425,12 +427,18 @@ def build_case(d):
         if any(c in nm for c in '*?[]'):
             style = 'fixed'
         if style == 'exact':
-            return nm
-        if style == 'ext':
-            return '*' + nm[nm.rfind('.'):] if '.' in nm[1:] else nm
-        if style == 'prefix':
-            return nm[:3] + '*'
-        return fixed
+            pat = nm
+        elif style == 'ext':
+            pat = '*' + nm[nm.rfind('.'):] if '.' in nm[1:] else nm
+        elif style == 'prefix':
+            pat = nm[:3] + '*'
+        else:
+            pat = fixed
+        if pat.startswith('-'):
+            # argparse reads "-hide -dash" as a missing argument (clean usage error): not expressible
+            avoided['avoided:pattern-with-leading-dash'] += 1
+            pat = '?' + pat[1:]
+        return pat
     protected = []
     if opts['boot']:
         # excluding or hiding the boot image (or a file named like the catalog) is outside the documented domain
@@ -1342,6 +1350,11 @@ def check_image(case, a, img, fail):
                 want_hidden_dirs += 1
     sym_hidden = sum(1 for p, n in exp.items() if n[0] == 'symlink' and fnmatch_any(pats, info[p]['name']))
     sym_hidden += sum(1 for p in a['views']['iso']['tolerated'] if fnmatch_any(pats, info[p]['name']))
+    opt_hidden_dirs = sum(1 for p, why in hid.items() if info[p]['entry']['kind'] == 'dir' and fnmatch_any(pats, info[p]['name']))
+    opt_hidden_files = collections.Counter()
+    for p, why in hid.items():
+        if info[p]['entry']['kind'] == 'file' and fnmatch_any(pats, info[p]['name']):
+            opt_hidden_files[content_bytes(info[p]['entry']['content'])] += 1
     for b in set(want_hidden) | set(hidden_files):
         w, g = want_hidden[b], hidden_files[b]
         if w <= g <= w + (sym_hidden if b == b'' else 0) + opt_hidden_files[b]:
@@ -1350,11 +1363,6 @@ def check_image(case, a, img, fail):
             fail('C20/iso/hidden-flag/%s' % ('missing' if g < w else 'unrequested'), '-hidden sets the existence bit on matching entries',
                  'ISO view: %d file records with content %s carry the hidden bit, %d source files match -hidden %s'
                  % (g, short(b[:12]), w, short(pats)))
-    opt_hidden_dirs = sum(1 for p, why in hid.items() if info[p]['entry']['kind'] == 'dir' and fnmatch_any(pats, info[p]['name']))
-    opt_hidden_files = collections.Counter()
-    for p, why in hid.items():
-        if info[p]['entry']['kind'] == 'file' and fnmatch_any(pats, info[p]['name']):
-            opt_hidden_files[content_bytes(info[p]['entry']['content'])] += 1
     if not want_hidden_dirs <= hidden_dirs <= want_hidden_dirs + opt_hidden_dirs:
         fail('C20/iso/hidden-flag/dir-%s' % ('missing' if hidden_dirs < want_hidden_dirs else 'unrequested'),
              '-hidden sets the existence bit on matching entries',
@@ -1420,12 +1428,23 @@ def shard(seed, tier, shard_no, nshards):
     col = Collector()
     n = CASES[tier]
 
+    seen = set()
+
+    # Hypothesis repeats (mostly its simplest) examples; every execution costs up to five
+    # subprocesses, so repeats are skipped and generation continues until n distinct cases ran.
     @hseed(seed * 64 + shard_no)
-    @settings(max_examples=n, database=None, deadline=None, phases=[Phase.generate],
+    @settings(max_examples=4 * n, database=None, deadline=None, phases=[Phase.generate],
               suppress_health_check=list(HealthCheck), report_multiple_bugs=False)
     @given(draw_st)
     def t(d):
+        if len(seen) >= n:
+            return
         case, avoided = build_case(d)
+        h = case_hash(case)
+        if h in seen:
+            col.bump('generator:repeated-draw-skipped')
+            return
+        seen.add(h)
         for k, v in avoided.items():
             col.bump(k, v)
         run_case(case, col)
@@ -1461,75 +1480,77 @@ def _prune(tree, opts):
     return out
 
 
-def shrink(case, sig, budget=60):
-    """ddmin over tree entries, then option simplification; every trial costs subprocess
-    time, so the number of trials is bounded."""
-    left = [budget]
+_SHRINK_TRIALS_LEFT = [1280]      # per process: a first run on a defective tree may meet dozens of signatures
+
+
+def shrink(case, sig, budget=64, threads=16):
+    """Greedy delta debugging over tree entries (chunks of every size) and options.  Every
+    trial costs subprocess time, so the number of trials is bounded and the candidates of a
+    round are evaluated concurrently (the work is in child processes)."""
+    from concurrent.futures import ThreadPoolExecutor
+    left = [min(budget, _SHRINK_TRIALS_LEFT[0])]
+    _SHRINK_TRIALS_LEFT[0] -= left[0]
+    if left[0] <= 0:
+        return None
 
     def holds(c):
-        if left[0] <= 0:
+        if c['options'].get('boot') and not any(e['path'] == c['options']['boot']['file'] for e in c['tree']):
             return False
-        left[0] -= 1
-        if c['options'].get('boot'):
-            if not any(e['path'] == c['options']['boot']['file'] for e in c['tree']):
-                return False
         if not c['tree']:
             return False
         col = Collector()
         run_case(c, col, focus=sig, record=False)
         return sig in col.failures
 
-    try:
-        if not holds(case):
-            return None
-        cur = {'tree': list(case['tree']), 'options': dict(case['options'])}
-        # options first: they decide how many subprocesses every later trial costs
+    def candidates(cur):
+        o = cur['options']
+        out = []
         for k, off in (('boot', None), ('udf', False), ('joliet', False), ('rr', None), ('dups', False), ('hide', []),
                        ('hide_joliet', []), ('hide_udf', []), ('hidden', []), ('exclude', []), ('exclude_old', []),
                        ('volid', ''), ('iso_extract', False)):
-            if cur['options'].get(k) in (off, None, False, [], ''):
+            if o.get(k) in (off, None, False, [], ''):
                 continue
-            trial = {'tree': cur['tree'], 'options': dict(cur['options'], **{k: off})}
+            t = {'tree': cur['tree'], 'options': dict(o, **{k: off})}
             if k == 'boot':
-                bf = cur['options']['boot']['file']
-                trial['tree'] = [e for e in cur['tree'] if e['path'] != bf]
-            if holds(trial):
-                cur = trial
-        # ddmin over entries
-        n = 2
-        while len(cur['tree']) >= 2 and left[0] > 0:
-            tree = cur['tree']
-            chunk = max(1, len(tree) // n)
-            reduced = False
-            for i in range(0, len(tree), chunk):
-                cand = _prune(tree[:i] + tree[i + chunk:], cur['options'])
-                if not cand or len(cand) >= len(tree):
-                    continue
-                trial = {'tree': cand, 'options': cur['options']}
-                if holds(trial):
-                    cur = trial
-                    n = max(n - 1, 2)
-                    reduced = True
+                t['tree'] = [e for e in cur['tree'] if e['path'] != o['boot']['file']]
+            out.append(t)
+        tree = cur['tree']
+        n = len(tree)
+        chunk = n // 2
+        seen = set()
+        while chunk >= 1:
+            for i in range(0, n, chunk):
+                cand = _prune(tree[:i] + tree[i + chunk:], o)
+                key = canon(cand)
+                if cand and len(cand) < n and key not in seen:
+                    seen.add(key)
+                    out.append({'tree': cand, 'options': o})
+            chunk //= 2
+        small = [dict(e, content={'seed': e['content']['seed'], 'size': 5})
+                 if e['kind'] == 'file' and 'hex' not in e['content'] and e['content']['size'] > 8 and not e['content'].get('flip')
+                 and not (o.get('boot') and e['path'] == o['boot']['file']) else e for e in tree]
+        if small != tree:
+            out.append({'tree': small, 'options': o})
+        if o.get('iso_level', 1) != 1:
+            out.append({'tree': tree, 'options': dict(o, iso_level=1)})
+        out.sort(key=lambda c: len(canon(c)))
+        return out
+
+    try:
+        with ThreadPoolExecutor(threads) as pool:
+            if not holds(case):
+                return None
+            cur = {'tree': list(case['tree']), 'options': dict(case['options'])}
+            while left[0] > 0:
+                cands = candidates(cur)[:left[0]]
+                if not cands:
                     break
-            if not reduced:
-                if chunk == 1:
+                left[0] -= len(cands)
+                verdicts = list(pool.map(holds, cands))
+                good = [c for c, ok in zip(cands, verdicts) if ok]
+                if not good:
                     break
-                n = min(len(tree), n * 2)
-        # contents: make files tiny where that keeps the failure
-        if left[0] > 0:
-            cand = []
-            for j, e in enumerate(cur['tree']):
-                if e['kind'] == 'file' and 'hex' not in e['content'] and e['content']['size'] > 8 and \
-                        not (cur['options'].get('boot') and e['path'] == cur['options']['boot']['file']):
-                    e = dict(e, content={'seed': e['content']['seed'], 'size': 5})
-                cand.append(e)
-            trial = {'tree': cand, 'options': cur['options']}
-            if cand != cur['tree'] and holds(trial):
-                cur = trial
-        if cur['options'].get('iso_level') != 1 and left[0] > 0:
-            trial = {'tree': cur['tree'], 'options': dict(cur['options'], iso_level=1)}
-            if holds(trial):
-                cur = trial
-        return cur
+                cur = good[0]       # the smallest candidate that still shows the signature
+            return cur
     finally:
         _cleanup_pid_dir()
